@@ -94,6 +94,34 @@ def cmd_add(a):
         shutil.rmtree(d, ignore_errors=True)
 
 
+def cmd_addpatch(a):
+    """record an existing patch file (behaviour-preserving refactor => --prop NEG, or a breaking change)"""
+    os.makedirs(MUT, exist_ok=True)
+    d = scratch_copy()
+    try:
+        rc, out = run(["patch", "-p1", "-s", "-i", a.patch], cwd=d)
+        if rc != 0:
+            sys.exit("patch does not apply:\n" + out)
+        rc, out = run(["go", "build", "./..."], cwd=d)
+        if rc != 0:
+            sys.exit("does not build:\n" + out)
+        rc, out = run(["go", "test", "-vet=off", "-count=1", "./..."], cwd=d)
+        if rc != 0:
+            sys.exit("fails the existing tests:\n" + out[-2000:])
+        name = f"{a.prop}__{a.name}.patch"
+        shutil.copy(a.patch, os.path.join(MUT, name))
+        rc, out = check(d, a.prop, a.expect)
+        print(out.strip().splitlines()[-1][:1500] if out.strip() else "(no output)")
+        idx = load_index()
+        idx["mutants"] = [m for m in idx["mutants"] if m["patch"] != name]
+        idx["mutants"].append({"patch": name, "property": a.prop, "expect": a.expect, "what": a.what, "tests_pass": True, "killed_when_added": rc == 0})
+        idx["mutants"].sort(key=lambda m: m["patch"])
+        json.dump(idx, open(INDEX, "w"), indent=1)
+        return 0 if rc == 0 else 1
+    finally:
+        shutil.rmtree(d, ignore_errors=True)
+
+
 def one(m):
     d = scratch_copy()
     try:
@@ -150,8 +178,14 @@ p.add_argument("--new", action="append", required=True)
 p.add_argument("--expect", required=True)
 p.add_argument("--what", default="")
 p.add_argument("--notests", action="store_true")
+p = sub.add_parser("addpatch")
+p.add_argument("--prop", required=True)
+p.add_argument("--name", required=True)
+p.add_argument("--patch", required=True)
+p.add_argument("--expect", default="none")
+p.add_argument("--what", default="")
 p = sub.add_parser("run")
 p.add_argument("--prop", required=True)
 p.add_argument("--out")
 a = ap.parse_args()
-sys.exit({"add": cmd_add, "run": cmd_run}[a.cmd](a) or 0)
+sys.exit({"add": cmd_add, "run": cmd_run, "addpatch": cmd_addpatch}[a.cmd](a) or 0)
